@@ -29,6 +29,8 @@ def weight(job):
     if job.get('kind') == 'custom' and job.get('func') == 'run_clone_job':
         return {0: 0.1, 1: 0.5, 2: 8, 3: 150}.get(job['N'], 1000)
     if job.get('kind') == 'custom' and job.get('module') == 'kanileaf': return 500
+    if job.get('kind') == 'custom' and job.get('func') == 'run_rs_alloc_rs_job':
+        return {2: 2, 3: 40, 4: 900}.get(job['N'], 3000)
     if job.get('kind') == 'custom' and job.get('func') == 'run_move_then_remove_job':
         return {2: 3, 3: 60, 4: 1200}.get(job['N'], 3000)
     if job.get('kind') == 'custom' and job.get('func') == 'run_de_history_job':
@@ -42,7 +44,7 @@ def weight(job):
     if job.get('kind') == 'custom':
         return {1: 0.2, 2: 2, 3: 25, 4: 200}.get(job['N'], 1000)
     if job.get('kind') in ('iter', 'pair', 'deiter'):
-        return {1: 0.1, 2: 0.3, 3: 1, 4: 8, 5: 140, 6: 300}.get(job['N'], 1000) * (3 if job['kind'] != 'iter' else 1)
+        return {1: 0.1, 2: 0.3, 3: 1, 4: 8, 5: 140, 6: 300}.get(job['N'], 1000) * (3 if job['kind'] != 'iter' else 1) * (3 if job.get('embedded') else 1)
     if job['op'] not in HEAVY: w *= 0.15
     if job.get('fix_t') is not None: w = 105
     if job.get('op') == 'remove' and job['N'] == 4: w = 50
@@ -104,6 +106,17 @@ def iter_jobs(prop, tier):
         if prop == 'C10' and N <= (4 if tier == 'quick' else 5):
             for name in iters.DE:
                 jobs.append({'kind': 'deiter', 'name': name, 'op': name + '_pulls', 'N': N, 'cfg': 'dev', 'feat': 'std', 'props': [prop]})
+    # embedded mode: the N modelled nodes are a link-closed component at symbolic positions of an arena of symbolic length <= 2^17
+    # (behaviour that depends on absolute slot numbers, e.g. a 64-bit visited mask indexed by slot number, seed C10-h)
+    for N in range(1, (4 if tier == 'quick' else 5) + 1):
+        if prop in ('C02', 'C09'):
+            for name in iters.FWD + iters.EDGE:
+                jobs.append({'kind': 'iter', 'name': name, 'op': name + '_embedded', 'N': N, 'embedded': True, 'cfg': 'dev', 'feat': 'std', 'props': [prop]})
+        if prop == 'C09':
+            jobs.append({'kind': 'pair', 'name': 'traverse_pair', 'op': 'traverse_pair_embedded', 'N': N, 'embedded': True, 'cfg': 'dev', 'feat': 'std', 'props': [prop]})
+        if prop == 'C10':
+            for name in iters.DE:
+                jobs.append({'kind': 'deiter', 'name': name, 'op': name + '_pulls_embedded', 'N': N, 'embedded': True, 'cfg': 'dev', 'feat': 'std', 'props': [prop]})
     if prop == 'C10':
         # the double-ended iterators on the forest a checked insert leaves behind (quick: N <= 3; thorough also N = 4 and one argument pair at N = 5)
         for opm in ('checked_append', 'checked_prepend', 'checked_insert_after', 'checked_insert_before'):
@@ -246,6 +259,10 @@ def plan_dev(prop, tier):
             for N in ((2, 3) if tier == 'quick' else (2, 3, 4)):
                 jobs.append({'kind': 'custom', 'module': 'multistep', 'func': 'run_move_then_remove_job', 'name': 'move_then_remove', 'op': opm + '_then_remove_subtree',
                              'op_mut': opm, 'N': N, 'cfg': 'dev', 'feat': 'std', 'props': [prop]})
+    if prop == 'C08':
+        for N in ((2, 3) if tier == 'quick' else (2, 3, 4)):
+            jobs.append({'kind': 'custom', 'module': 'multistep', 'func': 'run_rs_alloc_rs_job', 'name': 'rs_alloc_rs', 'op': 'remove_subtree_alloc_remove_subtree',
+                         'N': N, 'cfg': 'dev', 'feat': 'std', 'props': [prop]})
     if prop in ('C03', 'C08'):
         for N in range(1, (3 if tier == 'quick' else 4) + 1):
             jobs.append({'kind': 'custom', 'module': 'multistep', 'func': 'run_append_value_equiv_job', 'name': 'append_value_equiv', 'op': 'append_value_equiv',
